@@ -331,6 +331,27 @@ func (P *Program) registerVH() {
 		return in.constLike(t, v)
 	})
 	P.reg(VH+".Concretely", func(fr *frame, args []value) value { return fr.in.boolv(fr.in.branch(tm(args[0]))) })
+	P.reg(VH+".Bytes", func(fr *frame, args []value) value {
+		in := fr.in
+		n := in.mustInt(args[1], "byte count")
+		name := in.goStr(args[0], "nondet name")
+		out := make(sliceVal, n)
+		for i := range out {
+			out[i] = in.newNondet(name, "u8", smt.BV(8))
+		}
+		return out
+	})
+	P.reg(VH+".SetAllocView", func(fr *frame, args []value) value {
+		fr.in.extra["allocview"] = fr.in.mustInt(args[0], "alloc view")
+		fr.in.extra["allocbytes"] = fr.in.C.BVConstI(0, 64)
+		return nil
+	})
+	P.reg(VH+".AllocatedBytes", func(fr *frame, args []value) value {
+		if t, ok := fr.in.extra["allocbytes"].(*smt.Term); ok {
+			return t
+		}
+		return fr.in.intv(0)
+	})
 	P.reg(VH+".Settle", func(fr *frame, args []value) value { return nil })
 	P.reg(VH+".MustNotBlock", func(fr *frame, args []value) value {
 		in := fr.in
